@@ -224,6 +224,7 @@ func C05(c *mon.Ctx) {
 		var got []c05result
 		var convErr string
 		ctx0 := &flipCtx{Context: context.Background(), n: 1 << 30}
+		breqBefore := DeepPrint(breq)
 		err := func() (err error) {
 			defer func() {
 				if x := recover(); x != nil {
@@ -252,6 +253,11 @@ func C05(c *mon.Ctx) {
 			})
 		}()
 		w.Evals(1)
+		if after := DeepPrint(breq); after != breqBefore {
+			wit["template_before"], wit["template_after"] = breqBefore, after
+			w.Violation("batch.Authorize modifies the request template it was handed ["+shape+"]", "the template (parts, variable lists) differs after the call: a second call with the same template enumerates something else", wit)
+			return
+		}
 		if total > 0 {
 			w.NonTrivial(fmt.Sprint(tdesc) + strings.Join(ptexts, ";"))
 		}
